@@ -7,7 +7,7 @@
    Not proved here: fairness of the Go scheduler (a live worker goroutine does eventually take its
    next step - C15_worker_progress shows the step is always enabled), that a task's own body
    terminates, and the atomicity of getJob. *)
-From Gws Require Import Lib.Base Model.Queue Spec.FifoServer Proofs.QueueProofs Gen.Funcs Proofs.GenFuncsProofs.
+From Gws Require Import Lib.Base Model.Queue Spec.FifoServer Proofs.QueueProofs Gen.Funcs Proofs.GenQueueProofs.
 Local Open Scope Z_scope.
 
 (* every submitted task is either started or still queued, never both, never twice, in order *)
